@@ -85,6 +85,10 @@ func (f *frame) execCall(x *ssa.Call, in string, st *State) {
 			return
 		}
 		vc.obligeIn(f, "nil", "callfn:"+vc.anchorAt(f.fn, x.Pos(), "call"), in, Not(Eq(f.val(cc.Value).T, "Null")), x.Pos(), "call of possibly nil func value")
+		if r, ok := f.funcFieldContractCall(x, args, in, st); ok {
+			setResult(r)
+			return
+		}
 		vc.note("dynamic call of func value in %s: havoc", FuncName(f.fn))
 		f.havocAllPreservingLocals(st, in, "dynamic call")
 		setResult(f.freshVal(x.Name(), x.Type(), in, st))
